@@ -369,6 +369,12 @@ class SimNet:
         j, c = self._next_connect()
         self.connect_log.append({"j": j, "t": self.world.clock.now, "kind": "udp", "outcome": c["k"],
                                  "t_done": self.world.clock.now})
+        if c["k"] == "dns":
+            # the host NAME cannot be resolved (DNS down): getaddrinfo fails with a negative EAI_* error number
+            import socket as _socket
+            self.count("fault:connect_dns")
+            self.world.log("connect", "udp", j, "dns")
+            raise _socket.gaierror(c.get("eai", -3), "Temporary failure in name resolution")
         if c["k"] == "sockerr":
             self.count("fault:sockerr")
             self.world.log("connect", "udp", j, "sockerr", c["errno"])
